@@ -638,7 +638,7 @@ func (r *RawOption) unmarshal(b []byte) error {
 	r.Type = b[0]
 	r.Length = b[1]
 	// Exclude type and length fields from value's length.
-	l := int(r.Length*8) - 2
+	l := int(r.Length)*8 - 2
 
 	// Enforce a valid length value that matches the expected one.
 	if lb := len(b[2:]); l != lb {
